@@ -54,7 +54,22 @@ enum vsim_fault_kind {
   VF_TEST_LAZY,        // MPI_Test reports incomplete once more
   VF_HOST_STALL,       // all threads of a host stall
   VF_NKINDS
+  // (VF_NKINDS itself is the internal "recorded choice" kind; the next index is a public kind again, placed there so that
+  // the numbering of replay files written before it existed stays valid)
 };
+// A plain (non-atomic, non-volatile) access by instrumented code to a location that another thread touched last becomes a
+// decision point: lost updates and torn read-modify-write sequences on unprotected shared data become reachable by the
+// schedule search (they are not otherwise, plain accesses are not decision points).  Recorded like a fault so that
+// replays and minimisation reproduce exactly which accesses were decision points.
+#define VF_PLAIN_PREEMPT ((enum vsim_fault_kind)(VF_NKINDS + 1))
+// Plain-access decision points only exist while the (process-wide) window is open, and never for a thread that holds:
+// harness bookkeeping between library calls relies on running atomically (shared logs, shadow maps, ledgers).
+void vsim_plain_preempt_window(int on);
+void vsim_plain_hold(int on);
+#ifdef __cplusplus
+struct VsimPlainHold { VsimPlainHold() { vsim_plain_hold(1); } ~VsimPlainHold() { vsim_plain_hold(0); } };
+#endif
+
 // Declare that this harness tolerates fault `kind`.  Per run (swarm) the kind
 // is enabled with probability 1/2 and its rate drawn log-uniformly from
 // [rate_lo, rate_hi] (probability per opportunity).  In replay mode faults
@@ -86,6 +101,9 @@ void vsim_hb_enable(int on);
 void vsim_hb_watch_mmaps(int on);
 void vsim_hb_watch(const void* p, size_t len);   // watch an existing range
 void vsim_hb_unwatch_all(void);
+// Everything: every plain access made by instrumented code (library and harness) is checked, except accesses of a thread
+// to its own stack.  Expensive; meant to bracket single library calls.
+void vsim_hb_watch_everything(int on);
 // label the current phase of the harness (shows up in race reports)
 void vsim_phase(const char* label);
 
